@@ -1046,6 +1046,15 @@ class CInterp:
             self.ex.require_nonzero(term(b))
             q = _ctrunc_div(term(a), term(b))
             return SInt(z3.simplify(term(a) - term(b) * q))
+        if op in ("&", "|", "^", "<<", ">>"):
+            if isinstance(a, bool):
+                a = int(a)
+            if isinstance(b, bool):
+                b = int(b)
+            if isinstance(a, int) and isinstance(b, int):
+                import operator as _o2
+                return {"&": _o2.and_, "|": _o2.or_, "^": _o2.xor, "<<": _o2.lshift, ">>": _o2.rshift}[op](a, b)
+            raise Unsupported(f"bitwise {op} on a symbolic integer (flags are concrete per case in the contracts)")
         nan = getattr(self, "nan_value", None)
         if nan is not None and op in ("<", "<=", ">", ">=", "==", "!=") and (isinstance(a, SReal) or isinstance(b, SReal)):
             # IEEE comparisons with the contract's NaN token: every ordered comparison and == is false, != is true
